@@ -37,19 +37,12 @@ pub fn eval(scene: &Scene) -> Result<(u64, u64, bool), Violation> {
         _ => return Err(Violation::new("harness/unsupported-draw", case, "".to_string())),
     };
     let mut cov = cov.map_err(|p| Violation::new("reference/panic", case.clone(), p))?;
-    // clip rectangles pushed before the draw (also ones that only bound a layer pushed under
-    // them and are popped again) limit where the draw can show
-    for op in &scene.ops {
-        match op {
-            Op::PushClipRect(x0, y0, x1, y1) => {
-                for i in 0..(w * h) {
-                    if !(i % w >= *x0 && i % w < *x1 && i / w >= *y0 && i / w < *y1) {
-                        cov[i as usize] = 0;
-                    }
-                }
-            }
-            o if o.is_draw() => break,
-            _ => {}
+    // the clip rectangles and layer bounds in force at the draw limit where it can show
+    let at = scene.ops.iter().rposition(|o| o.is_draw()).unwrap_or(0);
+    let rr = reach_rect(&scene.ops, at, w, h);
+    for i in 0..(w * h) {
+        if !(i % w >= rr[0] && i % w < rr[2] && i / w >= rr[1] && i / w < rr[3]) {
+            cov[i as usize] = 0;
         }
     }
     let model = match ImgModel::new(iw, ih, &data, repeat, bilinear, &ctm, &sxf, alpha_byte(alpha)) {
@@ -280,6 +273,55 @@ impl Check for C13 {
                                         }
                                     }
                                     Err(v) => run.report(50_000 + s, v),
+                                }
+                            }
+                        }
+                    }
+                }
+            });
+        }
+        // image draws after calls that must leave the current transform (and anything derived from
+        // it) as they found it: layer push/pop, an empty layer under an empty clip, clear under a clip
+        {
+            let (w, h) = (9, 7);
+            let pres: Vec<Vec<Op>> = vec![
+                vec![Op::PushLayer(1.0, BlendMode::SrcOver), Op::PopLayer],
+                vec![Op::PushClipRect(5, 4, 1, 1), Op::PushLayer(0.5, BlendMode::SrcOver), Op::PopLayer, Op::PopClip],
+                vec![Op::PushLayer(0.001, BlendMode::SrcOver), Op::Clear(0xffffffff), Op::PopLayer],
+                vec![Op::PushClipRect(0, 0, w, h), Op::Clear(0xffffffff), Op::PopClip],
+            ];
+            let cs = ctms();
+            run.bound("draws after transform-preserving calls", format!("{} preambles x {} CTMs x 2 images x pad/repeat x nearest/bilinear: fill and draw_image_at", pres.len(), cs.len()));
+            run.par(pres.len() * cs.len(), |s, l| {
+                let pre = &pres[s / cs.len()];
+                let c = cs[s % cs.len()];
+                for (ii, &(iw, ih)) in [(3, 2), (4, 1)].iter().enumerate() {
+                    let data = image_of(iw, ih, &DISTINCT16, ii + 3);
+                    for repeat in [false, true] {
+                        for bilinear in [false, true] {
+                            let src = SrcSpec::Image { w: iw, h: ih, data: data.clone(), repeat, bilinear, xf: [1., 0., 0., 1., 0.25, -0.5] };
+                            let mut draws = vec![Op::Fill(PathSpec::rect(-60., -60., 120., 120.), src, Opts { mode: BlendMode::Src, alpha: 1.0, aa: true })];
+                            if !repeat && bilinear {
+                                draws.push(Op::DrawImageAt(1., 1., iw, ih, data.clone(), Opts { mode: BlendMode::Src, alpha: 1.0, aa: true }));
+                            }
+                            for d in draws {
+                                let mut ops = vec![Op::SetTransform(c)];
+                                ops.extend(pre.iter().cloned());
+                                ops.push(d);
+                                let scene = Scene { w, h, dst: Dst::White, ops };
+                                l.states += 1;
+                                l.transitions += scene.ops.len() as u64;
+                                l.traces += 1;
+                                l.evals += 1;
+                                match eval(&scene) {
+                                    Ok((hsh, n, interp)) => {
+                                        l.outcome(hsh);
+                                        l.count("pixels_checked", n);
+                                        if interp {
+                                            l.nontrivial += 1;
+                                        }
+                                    }
+                                    Err(v) => run.report(60_000 + s, v),
                                 }
                             }
                         }
